@@ -33,6 +33,7 @@ type harnessSpec struct {
 type propSpec struct {
 	Title       string        `json:"title"`
 	Harnesses   []harnessSpec `json:"harnesses"`
+	Validate    []harnessSpec `json:"validate"` // translator-validation scenarios (engine vs native)
 	Bounds      string        `json:"bounds"`
 	BoundsThor  string        `json:"bounds_thorough"`
 	Outside     string        `json:"outside"`
@@ -227,6 +228,18 @@ func cmdCheck(args []string) int {
 	for _, l := range knownPrinted {
 		fmt.Println(l)
 	}
+	validated := 0
+	if *only == "" {
+		for _, vs := range ps.Validate {
+			ok, msg := validateScenario(root, prop, vs)
+			if ok {
+				validated++
+				fmt.Printf("translator validation %-22s engine == native\n", vs.Func)
+			} else {
+				inconclusive = append(inconclusive, "translator validation "+vs.Func+": "+msg)
+			}
+		}
+	}
 
 	// replay new violations natively
 	replayDir := filepath.Join(root, "replays", prop)
@@ -264,6 +277,7 @@ func cmdCheck(args []string) int {
 		exit = 2
 	}
 
+	validatedScenarios = validated
 	writeEvidence(root, prop, *tier, seed, ps, results, funcs, stubs, inconclusive, knownPrinted, confirmed, samplesViol, time.Since(t0))
 	if exit == 0 {
 		fmt.Printf("OK property=%s tier=%s held on everything explored (%.1fs)\n", prop, *tier, time.Since(t0).Seconds())
@@ -272,6 +286,87 @@ func cmdCheck(args []string) int {
 }
 
 var currentTier = 0
+var validatedScenarios = 0
+
+// validateScenario runs a deterministic scenario function (returning its
+// observation string) in the engine and natively and compares the strings.
+func validateScenario(root, prop string, vs harnessSpec) (bool, string) {
+	p, err := loadForModule(vs.Module, []string{vs.Pkg})
+	if err != nil {
+		return false, "load: " + err.Error()
+	}
+	entry := p.findFunc(vs.Pkg, vs.Func)
+	if entry == nil {
+		return false, "no function " + vs.Func
+	}
+	cfg := defaultConfig()
+	cfg.Harness = vs.Func
+	cfg.Workers = 1
+	solver, err := NewSolver(cfg.SolverKind, cfg.SolverTimeout)
+	if err != nil {
+		return false, err.Error()
+	}
+	defer solver.Close()
+	res := runPath(p, cfg, solver, func() *Solver { return nil }, entry, nil)
+	if res.outcome.kind != "done" {
+		return false, "engine run ended with " + res.outcome.String()
+	}
+	eng, ok := res.retval.(string)
+	if !ok {
+		return false, "engine result is not a concrete string"
+	}
+	nat, nerr := nativeScenario(root, vs)
+	if nerr != "" {
+		return false, "native run: " + nerr
+	}
+	if eng != nat {
+		dir := filepath.Join(root, "replays", prop)
+		os.MkdirAll(dir, 0o755)
+		os.WriteFile(filepath.Join(dir, vs.Func+".engine.txt"), []byte(eng), 0o644)
+		os.WriteFile(filepath.Join(dir, vs.Func+".native.txt"), []byte(nat), 0o644)
+		return false, "observations differ (see " + filepath.Join(dir, vs.Func+".{engine,native}.txt") + ")"
+	}
+	return true, ""
+}
+
+func nativeScenario(root string, vs harnessSpec) (string, string) {
+	ov, err := buildOverlay(root, vs.Module)
+	if err != nil {
+		return "", "overlay"
+	}
+	scratch, err := os.MkdirTemp("/dev/shm", "gosym-vft-")
+	if err != nil {
+		scratch, _ = os.MkdirTemp("", "gosym-vft-")
+	}
+	defer os.RemoveAll(scratch)
+	modPath := map[string]string{"client": "github.com/orda-io/orda/client", "server": "github.com/orda-io/orda/server"}[vs.Module]
+	pkgDir := filepath.Join(repoRoot, vs.Module, strings.TrimPrefix(vs.Pkg, modPath))
+	pkgName := filepath.Base(vs.Pkg)
+	if pn := packageNameOf(ov, pkgDir); pn != "" {
+		pkgName = pn
+	}
+	src := fmt.Sprintf("package %s\n\nimport (\n\t\"fmt\"\n\t\"testing\"\n)\n\nfunc TestVFT(t *testing.T) {\n\tfmt.Printf(\"VFT-RESULT: %%q\\n\", %s())\n}\n", pkgName, vs.Func)
+	testFile := filepath.Join(scratch, "zz_vft_test.go")
+	os.WriteFile(testFile, []byte(src), 0o644)
+	ov[filepath.Join(pkgDir, "zz_vft_test.go")] = testFile
+	ovJSON := filepath.Join(scratch, "overlay.json")
+	b, _ := json.Marshal(map[string]interface{}{"Replace": ov})
+	os.WriteFile(ovJSON, b, 0o644)
+	cmd := osexec.Command("go", "test", "-v", "-vet=off", "-count=1", "-overlay", ovJSON, "-run", "^TestVFT$", vs.Pkg)
+	cmd.Dir = filepath.Join(repoRoot, vs.Module)
+	cmd.Env = append(os.Environ(), "GOFLAGS=-mod=mod", "GOPROXY=off", "GOSUMDB=off", "GOTOOLCHAIN=local")
+	out, _ := cmd.CombinedOutput()
+	for _, line := range strings.Split(string(out), "\n") {
+		if strings.HasPrefix(line, "VFT-RESULT: ") {
+			s, err := strconv.Unquote(strings.TrimPrefix(line, "VFT-RESULT: "))
+			if err != nil {
+				return "", "unquote"
+			}
+			return s, ""
+		}
+	}
+	return "", "no result line: " + firstLine(string(out))
+}
 
 func writeReplay(path, prop string, v *violation) {
 	rec := map[string]interface{}{
@@ -354,6 +449,7 @@ func writeEvidence(root, prop, tier string, seed int64, ps propSpec, results []*
 			"inconclusive":                   inconclusive,
 			"known_findings_printed":         known,
 			"exhaustive":                     len(inconclusive) == 0,
+			"traces_validated_against_impl":  validatedScenarios,
 		},
 		"assumptions": assumptions,
 		"wall_s":      round1(wall.Seconds()),
